@@ -245,10 +245,9 @@ def weak_validate(rep, kind, module, descs, exe, scen, paths, tag, invariants, m
         if res["rc"] != 0:
             return dict(ok=False, accepted=accepted, traces=total, why="TLC failed on the weak traces (rc=%s)" % res["rc"])
         acc = set()
-        with open(res["out"], errors="replace") as fh:
-            for ln in fh:
-                if ln.startswith('<<"ACCEPTED"'):
-                    acc.add(ln.strip())
+        for ln in res["printed"]:
+            if ln.startswith('<<"ACCEPTED"'):
+                acc.add(ln.strip())
         n = sum(1 for _ in open(of))
         accepted += len(acc)
         if len(acc) != n:
@@ -368,10 +367,9 @@ def trace_validate(rep, kind, scs, tag, seed, runs, invariants, key=None, varian
         res = vlib.run_tlc(mc, cfg, tag + "_weak", workers=4, timeout=1200, env={"TRACE": wf}, heap="8g")
         rep.add_tlc(res)
         acc = set()
-        with open(res["out"], errors="replace") as f:
-            for ln in f:
-                if ln.startswith('<<"ACCEPTED"'):
-                    acc.add(int(ln.split(",")[1].strip(" >\n")))
+        for ln in res["printed"]:
+            if ln.startswith('<<"ACCEPTED"'):
+                acc.add(int(ln.split(",")[1].strip(" >\n")))
         for j, (i, name, n, matched) in enumerate(rejected):
             if (j + 1) in acc and not res["violated"]:
                 weak_ok += 1
